@@ -13,6 +13,7 @@
   end-to-end scenarios (vlib/props/c02.py, correspondence:rewrite-e2e).
 -/
 import GitAiModel.Lemmas.RewriteOps2
+import GitAiModel.Extracted.RewriteHooks
 namespace GitAi.Sys
 
 /-! ## 1. The history invariant over every sequence of operations -/
@@ -280,6 +281,88 @@ example : ValidROps [1, 2, 3] ⟨cleanSpec [1, 2, 3] (fun _ => none), [], []⟩
 
 end GitAi.Sys
 
+/-! ## 5. Start / continue detection from git's state directories and the journal -/
+
+namespace GitAi.RJ
+open GitAi.Extracted
+
+/-- the shape the theorems need: continuing iff git says "in progress" AND the journal has an open
+    Start; the scan answers "open" exactly on a Start found before any Complete / Abort -/
+def Decision.Sound (d : Decision) : Prop :=
+  d.conn = .and ∧ d.startsWhenFresh = true ∧ d.activeOnClose = false ∧ d.activeOnStart = true ∧ d.activeDefault = false
+
+/-- **a new operation maps from its own head.** Whatever the journal holds — also a Start that was
+    never closed, left by an earlier rebase that did nothing or was aborted — an invocation made
+    while git has no operation in progress logs a Start with the current head, and that is the Start
+    the completion will read. -/
+theorem fresh_operation_uses_its_own_head (d : Decision) (hd : d.Sound) (j : List Ev) (head : Nat) :
+    findStart (preHook d false head j) = some head := by
+  obtain ⟨h1, h2, _, _, _⟩ := hd
+  simp [preHook, continuing, h1, h2, findStart]
+
+/-- **a continuation reads the Start of the operation in progress** and logs nothing new -/
+theorem continuation_keeps_the_open_start (d : Decision) (hd : d.Sound) (j : List Ev) (head : Nat)
+    (h : hasActiveStart d j = true) : preHook d true head j = j := by
+  obtain ⟨h1, _, _, _, _⟩ := hd
+  simp [preHook, continuing, h1, h]
+
+/-- an open Start is what the scan says it is: the newest event of the family is a Start -/
+theorem hasActiveStart_iff (d : Decision) (hd : d.Sound) (j : List Ev) :
+    hasActiveStart d j = true ↔ ∃ pre h post, j = pre ++ .start h :: post ∧ ∀ e ∈ pre, e = .other := by
+  obtain ⟨_, _, h3, h4, h5⟩ := hd
+  induction j with
+  | nil => simp [hasActiveStart, h5]
+  | cons e r ih =>
+    cases e with
+    | start h0 =>
+      simp only [hasActiveStart, h4, true_iff]
+      exact ⟨[], h0, r, rfl, by simp⟩
+    | complete =>
+      simp only [hasActiveStart, h3, Bool.false_eq_true, false_iff]
+      rintro ⟨pre, h, post, heq, hall⟩
+      cases pre with
+      | nil => simp at heq
+      | cons p ps =>
+        simp only [List.cons_append, List.cons.injEq] at heq
+        have := hall p (by simp)
+        rw [← heq.1] at this; cases this
+    | abort =>
+      simp only [hasActiveStart, h3, Bool.false_eq_true, false_iff]
+      rintro ⟨pre, h, post, heq, hall⟩
+      cases pre with
+      | nil => simp at heq
+      | cons p ps =>
+        simp only [List.cons_append, List.cons.injEq] at heq
+        have := hall p (by simp)
+        rw [← heq.1] at this; cases this
+    | other =>
+      simp only [hasActiveStart]
+      rw [ih]
+      constructor
+      · rintro ⟨pre, h, post, heq, hall⟩
+        exact ⟨.other :: pre, h, post, by simp [heq], by
+          intro e he
+          rcases List.mem_cons.1 he with rfl | he
+          · rfl
+          · exact hall e he⟩
+      · rintro ⟨pre, h, post, heq, hall⟩
+        cases pre with
+        | nil => simp at heq
+        | cons p ps =>
+          simp only [List.cons_append, List.cons.injEq] at heq
+          exact ⟨ps, h, post, heq.2, fun e he => hall e (List.mem_cons_of_mem _ he)⟩
+
+/-- the decisions in the current source (tables regenerated from /repo on every run) are sound -/
+theorem extracted_decisions_sound : RewriteHooks.rebase.Sound ∧ RewriteHooks.cherryPick.Sound := by
+  unfold Decision.Sound; decide
+
+/-- why the connective matters: with `||` a Start left open by a rebase that did nothing makes the
+    next, real rebase read that stale head -/
+theorem witness_or_reads_stale_start :
+    findStart (preHook { RewriteHooks.rebase with conn := .or } false 7 [.other, .start 3]) = some 3 := by decide
+
+end GitAi.RJ
+
 #print axioms GitAi.Sys.blame_matches_ghost
 #print axioms GitAi.Sys.rewrite_preserves_attribution
 #print axioms GitAi.Sys.replay_credit_from_source
@@ -287,3 +370,7 @@ end GitAi.Sys
 #print axioms GitAi.Sys.stash_roundtrip_partial
 #print axioms GitAi.Sys.regression_stash_upstream_above
 #print axioms GitAi.Sys.rspecRun_st
+#print axioms GitAi.RJ.fresh_operation_uses_its_own_head
+#print axioms GitAi.RJ.continuation_keeps_the_open_start
+#print axioms GitAi.RJ.hasActiveStart_iff
+#print axioms GitAi.RJ.extracted_decisions_sound
